@@ -16,6 +16,7 @@ RULE = ('accepted lines of the C02 generator (Intel syntax) x presentation-only 
 RULE += ' Round 6: symbol-relative operands: N+sym[regs] against sym[regs+N], N[regs+M] against [regs+(N+M)]; the displacement-outside rewrite no longer fires on operands that already carry a symbol or an outer displacement.'
 RULE += ' Round 7: x87 arithmetic with st(0) as destination: one- and two-operand spellings in both syntaxes (six mnemonics x 8 registers).'
 RULE += " Round 8: 8-bit immediates of ten MMX/SSE instructions in unsigned, hexadecimal and two's-complement spelling, both syntaxes."
+RULE += ' Round 9: explicit segment overrides (6 segments x 7 address forms x 4 instruction forms) written in Intel and in AT&T syntax.'
 ASSUMPTIONS = ['rewrites that change base/index roles ([eax+ebx] vs [ebx+eax]) are not applied (the statement exempts them)',
                'the AT&T transliteration is the reference\'s (GNU as + objdump -M att), not miasmX\'s']
 
